@@ -9,11 +9,15 @@
   field (time stepping).  `Float` rounding is not reasoned about: the harness runs the `Float`
   instantiation against numpy/LAPACK.
 
-  The time-stepping theorems are about ANY exact solution `T'` of the assembled tridiagonal
+  The time-stepping theorems (4)-(5) are about ANY exact solution `T'` of the assembled tridiagonal
   system `SolvesTri (assemble …).dl (assemble …).d (assemble …).du (rhs …) T'` — the lists the
   model (and, as measured by the harness to 1e-12, the code) hands to LAPACK `dgtsv`.  A cell
   list is written `(List.range (m+2)).map c` with `c : ℕ → Cell K` arbitrary; every list of
   length `m+2` has this form (`Radial.list_eq_range_map`).
+
+  Theorems (6)-(10) close the loop: the model's own elimination `triSolve` returns an exact solution
+  (strict diagonal dominance from positive coefficients), positivity of all coefficients follows from
+  valid inputs, so (4)-(5) hold for the temperatures the model's loop actually computes (`modelTraj`).
 
   Cell counts, far-field radius, initial temperature, … are `GHEVerif.Gen.Radial.*`,
   regenerated from radial_numerical_borehole.py on every check.
@@ -249,6 +253,156 @@ theorem resample_monotone {K : Type} [Field K] [LinearOrder K] [IsStrictOrderedR
     IsChain (· ≤ ·) v ∧ ∀ w ∈ v, y0 ≤ w ∧ w ≤ lastOf y0 ys :=
   resample_mono E hle xs ys x0 y0 num hnum hl hx hy u v h
 
+/-- (6) The model's own tridiagonal elimination (`triSolve`: `factorGo`, `fwdGo`, `backGo`) returns an
+    EXACT solution of the system it assembled, for every right-hand side, whenever conductances and
+    capacities are positive (strict row diagonal dominance ⇒ no zero pivot; induction over the rows). -/
+theorem triSolve_exact {K : Type} [Field K] [LinearOrder K] [IsStrictOrderedRing K]
+    (E : Env K) (m : ℕ) (dt : K) (c : ℕ → Cell K) (b : List K) (hb : b.length = m + 2)
+    (hκ : ∀ i, i ≤ m → 0 < Radial.cond E (c i) (c (i + 1))) (ha : ∀ i, i ≤ m → 0 < capRate dt (c i)) :
+    SolvesTri (assemble E (m + 2) dt ((List.range (m + 2)).map c)).dl
+      (assemble E (m + 2) dt ((List.range (m + 2)).map c)).d
+      (assemble E (m + 2) dt ((List.range (m + 2)).map c)).du b
+      (triSolve (assemble E (m + 2) dt ((List.range (m + 2)).map c)).dl
+        (assemble E (m + 2) dt ((List.range (m + 2)).map c)).d
+        (assemble E (m + 2) dt ((List.range (m + 2)).map c)).du b) :=
+  triSolve_solves_assembled E m dt c b hb hκ ha
+
+/-- (6') In general: the elimination is exact for any tridiagonal system none of whose pivots
+    vanishes, and strict row diagonal dominance `|l| + |u| < |d|` excludes a zero pivot. -/
+theorem triSolve_exact_of_dominance {K : Type} [Field K] [LinearOrder K] [IsStrictOrderedRing K]
+    (dl d du b : List K) (hdl : dl.length + 1 = d.length) (hdu : du.length + 1 = d.length) (hb : b.length = d.length)
+    (hdom : ∀ r ∈ rowsOf dl d du, |r.1| + |r.2.2| < |r.2.1|) :
+    SolvesTri dl d du b (triSolve dl d du b) :=
+  triSolve_solves_of_pivots dl d du b hdl hdu hb (by
+    unfold factor; exact pivots_ne_zero _ _ _ (by simp) hdom)
+
+/-- (7) What the model ACTUALLY computes (`modelTraj k` = temperatures after `k` passes of its loop
+    body `solveFac fac (rhs …)`), for positive conductances/capacities, `q > 0`, uniform start `T0`:
+    energy balance over any number of steps, every temperature non-decreasing and `≥ T0`, and the
+    appended `g`, `g_bhw` non-decreasing with `g_bhw ≥ 0`, `g ≥ −c0·R_b`. -/
+theorem model_trajectory {K : Type} [Field K] [LinearOrder K] [IsStrictOrderedRing K]
+    (E : Env K) (m : ℕ) (dt q T0 c0 rb : K) (bh : ℕ) (hbh : bh ≤ m + 1) (c : ℕ → Cell K) (Tinit : List K)
+    (hlen : Tinit.length = m + 2) (hinit : ∀ i, i ≤ m + 1 → Tinit.getD i 0 = T0)
+    (hκ : ∀ i, i ≤ m → 0 < Radial.cond E (c i) (c (i + 1))) (ha : ∀ i, i ≤ m → 0 < capRate dt (c i))
+    (hdt : 0 < dt) (hq : 0 < q) (hc0 : 0 < c0) :
+    (∀ N : ℕ, ∑ i ∈ Finset.range (m + 1), (c i).rhoCp * (c i).vol
+          * ((modelTraj E m dt q c Tinit N).getD i 0 - (modelTraj E m dt q c Tinit 0).getD i 0)
+        = (N : K) * q * dt - (∑ k ∈ Finset.range N, Radial.cond E (c m) (c (m + 1))
+            * ((modelTraj E m dt q c Tinit (k + 1)).getD m 0 - (modelTraj E m dt q c Tinit (k + 1)).getD (m + 1) 0)) * dt) ∧
+    (∀ k i, i ≤ m + 1 → (modelTraj E m dt q c Tinit k).getD i 0 ≤ (modelTraj E m dt q c Tinit (k + 1)).getD i 0
+        ∧ T0 ≤ (modelTraj E m dt q c Tinit k).getD i 0) ∧
+    (∀ k, c0 * (((modelTraj E m dt q c Tinit k).getD 0 0 - T0) / q - rb)
+          ≤ c0 * (((modelTraj E m dt q c Tinit (k + 1)).getD 0 0 - T0) / q - rb) ∧
+        -(c0 * rb) ≤ c0 * (((modelTraj E m dt q c Tinit k).getD 0 0 - T0) / q - rb) ∧
+        c0 * (((modelTraj E m dt q c Tinit k).getD bh 0 - T0) / q)
+          ≤ c0 * (((modelTraj E m dt q c Tinit (k + 1)).getD bh 0 - T0) / q) ∧
+        0 ≤ c0 * (((modelTraj E m dt q c Tinit k).getD bh 0 - T0) / q)) := by
+  have hs := fun k => modelTraj_solves E m dt q c Tinit hlen hκ ha k
+  have hcap : ∀ i, i ≤ m → (c i).rhoCp * (c i).vol ≠ 0 := by
+    intro i hi h0
+    have := ha i hi
+    unfold capRate at this
+    rw [h0, zero_div] at this
+    exact lt_irrefl _ this
+  have h0 : ∀ i, i ≤ m + 1 → (modelTraj E m dt q c Tinit 0).getD i 0 = T0 := by
+    intro i hi; simpa [modelTraj] using hinit i hi
+  refine ⟨fun N => ?_, fun k i hi => ?_, fun k => ?_⟩
+  · exact energy_balance_steps E m dt q c (fun k i => (modelTraj E m dt q c Tinit k).getD i 0) N hdt.ne' hcap
+      (fun k _ => hs k)
+  · exact discrete_max_principle E m dt q T0 c (fun k i => (modelTraj E m dt q c Tinit k).getD i 0) (k + 1) hκ ha hq.le h0
+      (fun k _ => hs k) k (by omega) i hi
+  · exact g_monotone_and_bounded E m dt q T0 c0 rb bh hbh c (fun k i => (modelTraj E m dt q c Tinit k).getD i 0) (k + 1)
+      hκ ha hq hc0 h0 (fun k _ => hs k) k (by omega)
+
+
+/-- (8) Positivity for the WHOLE cell table from the inputs: for valid inputs (`ValidInputs`: π > 0,
+    positive counts, `0 < r_fluid`, `r_pi < r_po`, `sqrt2·r_po < r_b < r_far`, positive resistances,
+    conductivity and capacities) and any `log` positive above 1, every cell is well-formed and every
+    conductance / capacity rate of the assembled system is positive. -/
+theorem table_coefficients_positive {K : Type} [Field K] [LinearOrder K] [IsStrictOrderedRing K]
+    (E : Env K) (hlog : LogPos E) (C : Counts) (x : Inputs K) (rf rpg dt : K)
+    (hv : ValidInputs E C x rf rpg) (hdt : 0 < dt) (dflt : Cell K) :
+    (∀ c ∈ fillRadialCellsCore E C x rf rpg, CellOK c) ∧
+    (∀ i, i + 1 < (fillRadialCellsCore E C x rf rpg).length →
+      0 < Radial.cond E ((fillRadialCellsCore E C x rf rpg).getD i dflt) ((fillRadialCellsCore E C x rf rpg).getD (i + 1) dflt)) ∧
+    (∀ i, i < (fillRadialCellsCore E C x rf rpg).length →
+      0 < capRate dt ((fillRadialCellsCore E C x rf rpg).getD i dflt)) :=
+  ⟨core_cells_ok E hlog C x rf rpg hv, core_coefficients_pos E hlog C x rf rpg dt hv hdt dflt⟩
+
+/-- `Real.log` is positive above 1. -/
+theorem real_log_pos (E : Env ℝ) (hE : E.log = Real.log) : LogPos E := by
+  intro x hx; rw [hE]; exact Real.log_pos hx
+
+/-- (9) Capstone: for valid inputs, on the table `fill_radial_cells` builds and from its uniform initial
+    temperatures, the temperatures the model's loop actually computes obey the energy balance, are
+    non-decreasing and ≥ the initial temperature, and `g`, `g_bhw` are non-decreasing with
+    `g_bhw ≥ 0`, `g ≥ −c0·R_b` — no hypothesis about the solve or the coefficients is left. -/
+theorem model_response_valid_inputs {K : Type} [Field K] [LinearOrder K] [IsStrictOrderedRing K]
+    (E : Env K) (hlog : LogPos E) (C : Counts) (x : Inputs K) (rf rpg : K) (hv : ValidInputs E C x rf rpg)
+    (m : ℕ) (hm : C.total = m + 2) (dt q c0 rb : K) (bh : ℕ) (hbh : bh ≤ m + 1)
+    (hdt : 0 < dt) (hq : 0 < q) (hc0 : 0 < c0) (dflt : Cell K) :
+    (List.range (m + 2)).map (fun i => (fillRadialCellsCore E C x rf rpg).getD i dflt) = fillRadialCellsCore E C x rf rpg ∧
+    (∀ N : ℕ, ∑ i ∈ Finset.range (m + 1),
+          ((fillRadialCellsCore E C x rf rpg).getD i dflt).rhoCp * ((fillRadialCellsCore E C x rf rpg).getD i dflt).vol
+          * ((modelTraj E m dt q (fun i => (fillRadialCellsCore E C x rf rpg).getD i dflt)
+                ((fillRadialCellsCore E C x rf rpg).map (·.temp)) N).getD i 0
+             - (modelTraj E m dt q (fun i => (fillRadialCellsCore E C x rf rpg).getD i dflt)
+                ((fillRadialCellsCore E C x rf rpg).map (·.temp)) 0).getD i 0)
+        = (N : K) * q * dt - (∑ k ∈ Finset.range N,
+            Radial.cond E ((fillRadialCellsCore E C x rf rpg).getD m dflt) ((fillRadialCellsCore E C x rf rpg).getD (m + 1) dflt)
+            * ((modelTraj E m dt q (fun i => (fillRadialCellsCore E C x rf rpg).getD i dflt)
+                  ((fillRadialCellsCore E C x rf rpg).map (·.temp)) (k + 1)).getD m 0
+               - (modelTraj E m dt q (fun i => (fillRadialCellsCore E C x rf rpg).getD i dflt)
+                  ((fillRadialCellsCore E C x rf rpg).map (·.temp)) (k + 1)).getD (m + 1) 0)) * dt) ∧
+    (∀ k i, i ≤ m + 1 →
+        (modelTraj E m dt q (fun i => (fillRadialCellsCore E C x rf rpg).getD i dflt)
+            ((fillRadialCellsCore E C x rf rpg).map (·.temp)) k).getD i 0
+          ≤ (modelTraj E m dt q (fun i => (fillRadialCellsCore E C x rf rpg).getD i dflt)
+            ((fillRadialCellsCore E C x rf rpg).map (·.temp)) (k + 1)).getD i 0
+        ∧ ((Gen.Radial.initTemp : ℕ) : K)
+          ≤ (modelTraj E m dt q (fun i => (fillRadialCellsCore E C x rf rpg).getD i dflt)
+            ((fillRadialCellsCore E C x rf rpg).map (·.temp)) k).getD i 0) ∧
+    (∀ k, c0 * (((modelTraj E m dt q (fun i => (fillRadialCellsCore E C x rf rpg).getD i dflt)
+              ((fillRadialCellsCore E C x rf rpg).map (·.temp)) k).getD 0 0 - ((Gen.Radial.initTemp : ℕ) : K)) / q - rb)
+          ≤ c0 * (((modelTraj E m dt q (fun i => (fillRadialCellsCore E C x rf rpg).getD i dflt)
+              ((fillRadialCellsCore E C x rf rpg).map (·.temp)) (k + 1)).getD 0 0 - ((Gen.Radial.initTemp : ℕ) : K)) / q - rb) ∧
+        -(c0 * rb) ≤ c0 * (((modelTraj E m dt q (fun i => (fillRadialCellsCore E C x rf rpg).getD i dflt)
+              ((fillRadialCellsCore E C x rf rpg).map (·.temp)) k).getD 0 0 - ((Gen.Radial.initTemp : ℕ) : K)) / q - rb) ∧
+        c0 * (((modelTraj E m dt q (fun i => (fillRadialCellsCore E C x rf rpg).getD i dflt)
+              ((fillRadialCellsCore E C x rf rpg).map (·.temp)) k).getD bh 0 - ((Gen.Radial.initTemp : ℕ) : K)) / q)
+          ≤ c0 * (((modelTraj E m dt q (fun i => (fillRadialCellsCore E C x rf rpg).getD i dflt)
+              ((fillRadialCellsCore E C x rf rpg).map (·.temp)) (k + 1)).getD bh 0 - ((Gen.Radial.initTemp : ℕ) : K)) / q) ∧
+        0 ≤ c0 * (((modelTraj E m dt q (fun i => (fillRadialCellsCore E C x rf rpg).getD i dflt)
+              ((fillRadialCellsCore E C x rf rpg).map (·.temp)) k).getD bh 0 - ((Gen.Radial.initTemp : ℕ) : K)) / q)) := by
+  have hlen : (fillRadialCellsCore E C x rf rpg).length = m + 2 := by rw [core_length, hm]
+  obtain ⟨hk, hcap⟩ := core_coefficients_pos E hlog C x rf rpg dt hv hdt dflt
+  have e := list_eq_range_map (fillRadialCellsCore E C x rf rpg) dflt
+  rw [hlen] at e
+  have hinit : ∀ i, i ≤ m + 1 → ((fillRadialCellsCore E C x rf rpg).map (·.temp)).getD i 0 = ((Gen.Radial.initTemp : ℕ) : K) := by
+    intro i hi
+    have hi' : i < ((fillRadialCellsCore E C x rf rpg).map (·.temp)).length := by simp [hlen]; omega
+    rw [List.getD_eq_getElem _ _ hi', List.getElem_map]
+    exact core_temp E C x rf rpg _ (List.getElem_mem _)
+  exact ⟨e.symm, model_trajectory E m dt q _ c0 rb bh hbh _ _ (by simp [hlen]) hinit
+    (fun i hi => hk i (by rw [hlen]; omega)) (fun i hi => hcap i (by rw [hlen]; omega)) hdt hq hc0⟩
+
+/-- (10) The loop body of `calc_sts_g_functions` in the model (`stepOnce` with the factorisation
+    `calcSts` passes in) updates the temperatures by `modelStep`, i.e. `modelTraj` is the sequence of
+    temperature lists the model's `while` loop goes through, and the `g`, `g_bhw` it appends are the
+    expressions of (7)/(9) at the new temperatures. -/
+theorem loop_body_is_modelStep {K : Type} [Field K] [LinearOrder K] [IsStrictOrderedRing K]
+    (E : Env K) (m bhIdx : ℕ) (dt q tS c0 rb : K) (c : ℕ → Cell K) (s s' : LoopState K)
+    (h : stepOnce E (m + 2) bhIdx
+          (factor (rowsOf (assemble E (m + 2) dt ((List.range (m + 2)).map c)).dl
+                          (assemble E (m + 2) dt ((List.range (m + 2)).map c)).d
+                          (assemble E (m + 2) dt ((List.range (m + 2)).map c)).du))
+          (assemble E (m + 2) dt ((List.range (m + 2)).map c)).ad0 q dt tS c0 rb s = .ok s') :
+    s'.T = modelStep E m dt q c s.T ∧
+    s'.g = c0 * ((s'.T.headD 0 - ((Gen.Radial.initTemp : ℕ) : K)) / q - rb) :: s.g ∧
+    s'.gBhw = c0 * (((s'.T.drop bhIdx).headD 0 - ((Gen.Radial.initTemp : ℕ) : K)) / q) :: s.gBhw := by
+  obtain ⟨h1, _, _, h4, h5⟩ := stepOnce_ok E (m + 2) bhIdx _ _ q dt tS c0 rb s s' h
+  exact ⟨h1, h4, h5⟩
+
 /-! ### Non-vacuity: concrete instances on which the hypotheses hold -/
 
 /-- A rational environment (`log x := x - 1` is positive on ratios above 1, which is all the
@@ -299,5 +453,19 @@ example : 0 < (geometry ER genCounts xR).rConv ∧ (geometry ER genCounts xR).rC
   simp only [geometry, ER, xR]
   norm_num
 
+
+-- (6),(7): the 3-cell system above has positive coefficients, so `triSolve_exact` / `model_trajectory` apply to it
+example : ∀ k, (modelTraj E0 1 1 1 c3 [0, 0, 0] k).getD 0 0 ≤ (modelTraj E0 1 1 1 c3 [0, 0, 0] (k + 1)).getD 0 0 := by
+  have h : (∀ i, i ≤ 1 → 0 < Radial.cond E0 (c3 i) (c3 (i + 1))) ∧ (∀ i, i ≤ 1 → 0 < capRate 1 (c3 i)) := by decide +kernel
+  intro k
+  exact ((model_trajectory E0 1 1 1 0 1 0 1 (by omega) c3 [0, 0, 0] rfl (by decide +kernel) h.1 h.2 one_pos one_pos one_pos).2.1
+    k 0 (by omega)).1
+
+-- (8),(9): `log x := x - 1` is positive above 1 and the inputs `x0` are valid
+example : LogPos E0 := fun x hx => by simp only [E0]; linarith
+example : ValidInputs E0 genCounts x0 (1 / 500) (99 / 500) :=
+  ⟨by decide +kernel, gen_counts_positive.1, by decide +kernel, by decide +kernel, by decide +kernel, by decide +kernel,
+   by decide +kernel, by decide +kernel, by decide +kernel, by decide +kernel, by decide +kernel, by decide +kernel,
+   by decide +kernel, by decide +kernel⟩
 
 end GHEVerif.C10
